@@ -34,7 +34,7 @@ func init() {
 			r.Cov["traces_validated_against_impl"] = m.Counts["cells"]
 			r.Cov["evaluations"] = m.Counts["cells"]
 			r.Cov["distinct_nontrivial"] = len(m.Outc)
-			r.Cov["rule"] = "finite matrix on the real stack: TLS configuration shape (certificate via Certificates / GetCertificate / GetConfigForClient; client certificate required and verified; the test directory's own default-TLS and WithMTLS configurations) x client behaviour (plaintext request of each of the 7 operations, 64 arbitrary bytes, connect and close, TLS without certificate, certificate from another CA, certificate from another call of the library's own GetTLSConfig(WithMTLS), certificate of the right CA but another subject, TLS 1.2-only client, right certificate; two configurations carry a VerifyConnection policy: one allowed subject / TLS 1.3 only) x shape of Run's option list (nil / other options before and after WithTLSConfig), each next to a conforming bystander that binds before, while and after; the handler log must have no entry for a connection that does not satisfy the configuration. The interleavings of failing handshakes with bystander traffic are explored by the SCHED part (coverage key sched_part)."
+			r.Cov["rule"] = "finite matrix on the real stack: TLS configuration shape (certificate via Certificates / GetCertificate / GetConfigForClient; client certificate required and verified; the test directory's own default-TLS and WithMTLS configurations) x client behaviour (plaintext request of each of the 7 operations, 64 arbitrary bytes, connect and close, TLS without certificate, certificate from another CA, certificate from another call of the library's own GetTLSConfig(WithMTLS), certificate of the right CA but another subject, TLS 1.2-only client, right certificate; two configurations carry a VerifyConnection policy: one allowed subject / TLS 1.3 only) x shape of the option lists (nil / other options before and after WithTLSConfig in Run's list; a weaker WithTLSConfig handed to NewServer as well), each next to a conforming bystander that binds before, while and after; the handler log must have no entry for a connection that does not satisfy the configuration. The interleavings of failing handshakes with bystander traffic are explored by the SCHED part (coverage key sched_part)."
 			r.Cov["samples"] = m.Samp
 			r.Cov["outcomes"] = m.Outc
 			r.Cov["exhaustive"] = !m.CapHit
@@ -123,7 +123,15 @@ type c18srv struct {
 // list: "" = just WithTLSConfig, "nil-first" / "nil-last" = a nil Option (documented as ignored) before /
 // after it, "other-first" = an unrelated option before it.
 func startOwn(cfg *tls.Config, p *rpki, shape string) *c18srv {
-	srv, _ := gldap.NewServer(gldap.WithLogger(quietLogger))
+	nsopts := []gldap.Option{gldap.WithLogger(quietLogger)}
+	if shape == "newserver-weaker" {
+		// the constructor is handed a TLS configuration too (it accepts any Option): one without client
+		// certificates; the configuration given to Run is the one that counts
+		weaker := cfg.Clone()
+		weaker.ClientAuth, weaker.ClientCAs, weaker.VerifyConnection = tls.NoClientCert, nil, nil
+		nsopts = append(nsopts, gldap.WithTLSConfig(weaker))
+	}
+	srv, _ := gldap.NewServer(nsopts...)
 	mux, _ := gldap.NewMux()
 	var mu sync.Mutex
 	var seen []string
@@ -353,6 +361,13 @@ func c18run(c *Ctx) {
 			c.ClientCAs = p.pool
 			return c
 		}, true, "other-first", ""},
+		{"client certificate required, Certificates, NewServer given a server-auth-only WithTLSConfig as well", func() *tls.Config {
+			c := base()
+			c.Certificates = []tls.Certificate{srvCert}
+			c.ClientAuth = tls.RequireAndVerifyClientCert
+			c.ClientCAs = p.pool
+			return c
+		}, true, "newserver-weaker", ""},
 		{"server-auth, GetCertificate", func() *tls.Config {
 			c := base()
 			c.GetCertificate = func(*tls.ClientHelloInfo) (*tls.Certificate, error) { return &srvCert, nil }
@@ -430,10 +445,11 @@ func c18run(c *Ctx) {
 		s.stop()
 	}
 	// the test directory's own configurations
-	for _, dirMTLS := range []bool{false, true} {
+	for _, dv := range []struct{ mtls, used bool }{{false, false}, {true, false}, {false, true}, {true, true}} {
 		if !c.Mine() {
 			continue
 		}
+		dirMTLS := dv.mtls
 		t := &quietT{}
 		users := testdirectory.NewUsers(t, []string{"alice"})
 		opts := []testdirectory.Option{testdirectory.WithDefaults(t, &testdirectory.Defaults{Users: users}), testdirectory.WithLogger(t, quietLogger)}
@@ -442,7 +458,7 @@ func c18run(c *Ctx) {
 			opts = append(opts, testdirectory.WithMTLS(t))
 			name = "testdirectory WithMTLS"
 		}
-		d := testdirectory.Start(t, opts...)
+		d := startDirectory(t, opts...)
 		pool := x509.NewCertPool()
 		pool.AppendCertsFromPEM([]byte(d.Cert()))
 		var right *tls.Certificate
@@ -461,6 +477,31 @@ func c18run(c *Ctx) {
 				}
 				return cc
 			}, creds: [2]string{users[0].DN, "password"}}
+		if dv.used {
+			// not the initial state: a conforming client has been there before and has used what the
+			// directory offers, a StartTLS request inside its TLS session included
+			name += ", after a conforming session (bind, search, StartTLS request)"
+			if conn, err := tls.DialWithDialer(&net.Dialer{Timeout: 10 * time.Second}, "tcp", s.addr, s.client(right)); err == nil {
+				c.Count("connections", 1)
+				for i, r := range []*codec.Req{
+					{Op: "bind", MsgID: 1, Version: 3, DN: s.creds[0], Password: s.creds[1]},
+					{Op: "search", MsgID: 2, DN: s.creds[0], Scope: 0, Filter: "(objectClass=*)"},
+					{Op: "extended", MsgID: 3, Name: codec.OIDStartTLS},
+				} {
+					prepFilter(r)
+					_ = conn.SetDeadline(time.Now().Add(3 * time.Second))
+					if _, err := conn.Write(r.Bytes()); err != nil {
+						break
+					}
+					buf := make([]byte, 4096)
+					if i == 1 {
+						_, _ = conn.Read(buf) // entry
+					}
+					_, _ = conn.Read(buf)
+				}
+				conn.Close()
+			}
+		}
 		for _, b := range behaviours {
 			if (b == "tls-right-cert" || b == "tls12-only-right-cert") && !dirMTLS {
 				continue
